@@ -284,6 +284,25 @@ def run_model(module, cfg, workers=4, timeout=1800, extra=None, heap="4g"):
             "module": module, "cfg": cfg}
 
 
+def run_apalache(module, inv, length=0, timeout=1200):
+    """Symbolic check with Apalache (unbounded integers): Init => inv for --length=0.  Same result shape as run_model."""
+    t0 = time.time()
+    outdir = os.path.join(WORK, "apalache-%d-%d" % (os.getpid(), random.randrange(1 << 30)))
+    cmd = ["apalache-mc", "check", "--length=%d" % length, "--inv=" + inv, "--out-dir=" + outdir, module]
+    try:
+        p = subprocess.run(cmd, cwd=SPEC, stdout=subprocess.PIPE, stderr=subprocess.STDOUT, text=True, timeout=timeout)
+        rc, out = p.returncode, p.stdout
+    except subprocess.TimeoutExpired:
+        rc, out = 124, "timeout"
+    shutil.rmtree(outdir, ignore_errors=True)
+    ok = rc == 0 and "The outcome is: NoError" in out
+    viol = "invariant 0 violated" in out or "The outcome is: Error" in out
+    if not ok and not viol:
+        raise ToolError("Apalache failed on %s inv=%s rc=%s:\n%s" % (module, inv, rc, out[-3000:]))
+    return {"ok": ok, "states": 0, "transitions": 0, "wall": time.time() - t0, "out": out, "module": module,
+            "cfg": "apalache --length=%d --inv=%s (symbolic, unbounded integers)" % (length, inv)}
+
+
 # ------------------------------------------------------------------------------------------------
 # known findings
 
@@ -347,10 +366,14 @@ def finish(prop, tier, seed, t0, result, models, samples, extra_cov=None, assump
     known_hit = {}
     other = {}
     disputes = []
+    drift = {}
     model_viol = [m for m in models if not m["ok"]]
     for mm in result["mismatches"]:
         if mm["prop"] == "SPEC":
             disputes.append(mm)
+            continue
+        if mm["prop"] == "MODEL":
+            drift[mm["why"]] = drift.get(mm["why"], 0) + 1
             continue
         if mm["prop"] != prop:
             other[mm["prop"]] = other.get(mm["prop"], 0) + 1
@@ -379,6 +402,8 @@ def finish(prop, tier, seed, t0, result, models, samples, extra_cov=None, assump
         print("VIOLATION property=%s replay=%s  # bounded model %s violates its invariant" % (prop, path, m["cfg"]), flush=True)
     for fid, (fd, cnt) in sorted(known_hit.items()):
         print("KNOWN-FINDING: property=%s %s (%s; %d events this run)" % (prop, fd["description"], fid, cnt), flush=True)
+    for why, cnt in sorted(drift.items()):
+        print("NOTE: model drift, not a violation: %s (%d events); the design-level models describe the formula, the trace clauses still judge the code" % (why, cnt), flush=True)
     for p2, cnt in sorted(other.items()):
         print("NOTE: %d event(s) of this run also contradict %s (reported by that property's check)" % (cnt, p2), flush=True)
     cov = {
@@ -392,6 +417,7 @@ def finish(prop, tier, seed, t0, result, models, samples, extra_cov=None, assump
                             "ok": m["ok"], "wall_s": round(m["wall"], 1)} for m in models],
         "known_findings_hit": {k: v[1] for k, v in known_hit.items()},
         "other_property_mismatches": other,
+        "model_drift_notes": drift,
         "exhaustive": False,
     }
     if extra_cov:
